@@ -21,6 +21,8 @@ def inline(node, files, cur, depth=0):
         if "$ref" in node:
             r = node["$ref"]
             fpart, _, frag = r.partition("#")
+            if fpart.startswith("file://"):
+                fpart = fpart[len("file://"):]
             path = cur
             if fpart:
                 path = posixpath.normpath(posixpath.join(posixpath.dirname(cur), fpart))
@@ -153,6 +155,13 @@ def multi_file_cases(ctx):
     out.append(("whole-file-composite-subdir", {"s.json": {"$id": "http://x/main", "type": "object", "properties": {"owners": {"type": "array", "items": {"$ref": "people/person.json"}, "minItems": 1}}},
                                                 "people/person.json": person}, "s.json", []))
     out.append(("parent-dir", {"s.json": top, "sub/mid.json": mid, "leaf.json": leaf}, "s.json", []))
+    # a reference written with the file:// scheme to a document that itself refers to a sibling of its own
+    f_types = {"description": "types", "$defs": {"T": {"type": "object", "properties": {"b": {"$ref": "./base.json"}, "n": {"type": "integer", "minimum": 1}}, "required": ["b"]}}}
+    f_base = {"type": "object", "properties": {"v": {"type": "string", "minLength": 2}}, "required": ["v"]}
+    f_decoy = {"type": "object", "properties": {"v": {"type": "integer"}}, "required": ["v"]}
+    out.append(("file-scheme-two-hops", {"s.json": {"$id": "http://x/main", "type": "object", "properties": {"t": {"$ref": "file://common/types.json#/$defs/T"}}, "required": ["t"]},
+                                         "common/types.json": f_types, "common/base.json": f_base, "base.json": f_decoy,
+                                         "__docs__": [{"t": {"b": {"v": "ab"}}}, {"t": {"b": {"v": 5}}}, {"t": {"b": {"v": "a"}}}]}, "s.json", []))
     # a file that refers to a file of the SAME base name in another directory (and to itself by name): same definition names, different content
     api = {"description": "api types", "$defs": {"Id": {"type": "string", "minLength": 3},
                                                "Account": {"type": "object", "properties": {"account": {"$ref": "../common/types.json#/$defs/Id"}, "label": {"$ref": "#/$defs/Id"},
